@@ -364,30 +364,44 @@ fn main() {
             }
             let busy = Arc::new(std::sync::atomic::AtomicBool::new(false));
             fastrace::set_reporter(Slow(busy.clone()), Config::default().report_interval(Duration::from_millis(1)));
-            {
-                let r = Span::root("trigger", SpanContext::new(TraceId(1), SpanId(1)));
-                drop(r);
+            // wall-clock latencies decide nothing on their own on a loaded machine: the measurement
+            // is repeated, and only three slow rounds in a row count as "waited for the collector"
+            let mut rounds: Vec<u64> = vec![];
+            let mut still_busy = false;
+            for attempt in 0..3u64 {
+                {
+                    let r = Span::root("trigger", SpanContext::new(TraceId(1 + attempt as u128), SpanId(1)));
+                    drop(r);
+                }
+                let t = Instant::now();
+                while !busy.load(Ordering::SeqCst) && t.elapsed() < Duration::from_secs(5) {
+                    std::thread::sleep(Duration::from_millis(1));
+                }
+                if !busy.load(Ordering::SeqCst) {
+                    panic!("the reporter was never called (harness)");
+                }
+                let mut worst = 0u128;
+                for k in 0..4 {
+                    let h = std::thread::spawn(move || {
+                        let t = Instant::now();
+                        workload(if k == 0 { "fresh" } else { "fresh-more" }, false);
+                        t.elapsed().as_millis()
+                    });
+                    worst = worst.max(h.join().unwrap());
+                }
+                still_busy = busy.load(Ordering::SeqCst);
+                rounds.push(worst as u64);
+                if worst <= 700 {
+                    break;
+                }
+                let t = Instant::now();
+                while busy.load(Ordering::SeqCst) && t.elapsed() < Duration::from_secs(5) {
+                    std::thread::sleep(Duration::from_millis(1));
+                }
             }
-            let t = Instant::now();
-            while !busy.load(Ordering::SeqCst) && t.elapsed() < Duration::from_secs(5) {
-                std::thread::sleep(Duration::from_millis(1));
-            }
-            if !busy.load(Ordering::SeqCst) {
-                panic!("the reporter was never called (harness)");
-            }
-            let mut worst = 0u128;
-            for k in 0..4 {
-                let h = std::thread::spawn(move || {
-                    let t = Instant::now();
-                    workload(if k == 0 { "fresh" } else { "fresh-more" }, false);
-                    t.elapsed().as_millis()
-                });
-                worst = worst.max(h.join().unwrap());
-            }
-            let still_busy = busy.load(Ordering::SeqCst);
-            extra = json!({"worst_fresh_thread_workload_ms": worst as u64, "reporter_still_in_report": still_busy});
-            if worst > 700 {
-                panic!("tracing calls of a fresh thread took {} ms while the reporter was inside report(): they waited for the collector", worst);
+            extra = json!({"worst_fresh_thread_workload_ms_per_round": rounds, "reporter_still_in_report": still_busy});
+            if rounds.len() == 3 && rounds.iter().all(|w| *w > 700) {
+                panic!("tracing calls of a fresh thread took {:?} ms in three rounds while the reporter was inside report(): they waited for the collector", rounds);
             }
         }
         "reporter-traces" => {
